@@ -176,14 +176,24 @@ Fixpoint parse_items (cs : list ascii) (cnt : option nat) : option fmt :=
       end
   end.
 
-Definition all_word (f : fmt) : bool := forallb (fun k => Nat.eqb (ksize k) 4) f.
+(** Native formats (no prefix) are accepted only when alignment cannot insert padding: every field is a
+    number and all fields have the same size (then every offset is a multiple of the alignment). *)
+Definition scalar_size (k : kind) : option nat :=
+  match k with KInt _ w => Some w | KFloat => Some 4%nat | _ => None end.
+Definition same_size_scalars (f : fmt) : bool :=
+  match f with
+  | [] => true
+  | k :: _ => match scalar_size k with
+              | None => false
+              | Some w => forallb (fun k' => match scalar_size k' with Some w' => Nat.eqb w w' | None => false end) f
+              end
+  end.
 
-(** Native formats (no prefix) are accepted only when alignment cannot insert padding. *)
 Definition parse_fmt (s : string) : option fmt :=
   match list_ascii_of_string s with
   | "<"%char :: r => parse_items r None
   | cs => match parse_items cs None with
-          | Some f => if all_word f then Some f else None
+          | Some f => if same_size_scalars f then Some f else None
           | None => None
           end
   end.
